@@ -327,7 +327,7 @@ class Gen:
                     body.append(self.call_of(callee, pnames))
                 else:
                     body.append(self.decl_using(pnames))
-            if pnames and all(dflt is None for _, dflt in d['params']) and r.random() < 0.3:
+            if pnames and r.random() < 0.3:
                 body.append(('decl', 'border', [('arguments',)], False))
             d['body'] = body
         units = []
@@ -522,9 +522,11 @@ def show_stmts(stmts, L, last_semicolon=True):
         if k == 'decl':
             last = (i == len(stmts) - 1)
             semi = '' if (last and getattr(L, 'toggle_semi', False) and L.rng.random() < 0.5) else ';'
-            out += s[1] + ':' + L.opt() + show_value(s[2], L) + (L.blank() + '!important' if s[3] else '') + semi
+            pre = getattr(L, 'pre', lambda: '')
+            out += s[1] + pre() + ':' + L.opt() + show_value(s[2], L) + (L.blank() + '!important' if s[3] else '') + (pre() if semi else '') + semi
         elif k == 'var':
-            out += s[1] + ':' + L.opt() + show_value(s[2], L) + ';'
+            pre = getattr(L, 'pre', lambda: '')
+            out += s[1] + pre() + ':' + L.opt() + show_value(s[2], L) + pre() + ';'
         elif k == 'rule':
             inner_gap = L.stmt_gap()
             out += (',' + L.opt()).join(show_sel(x, L) for x in s[1]) + (L.blank() if s[3].get('sp_brace') else '') + '{' + show_stmts(s[2], L) + inner_gap + '}'
@@ -550,7 +552,8 @@ def show_stmts(stmts, L, last_semicolon=True):
             if s[2] is None:
                 out += s[1] + ';'
             else:
-                out += s[1] + '(' + (s[3] + L.opt()).join(show_value(a, L) for a in s[2]) + ');'
+                pre = getattr(L, 'pre', lambda: '')
+                out += s[1] + '(' + ''.join((pre() + s[3] + L.opt() if i else '') + show_value(a, L) for i, a in enumerate(s[2])) + pre() + ');'
     return out
 
 
